@@ -185,6 +185,8 @@ Proof.
     + destruct (slot t import); inversion E; subst; [|exact Hw]. unfold with_asg. destruct import; exact Hw.
   - inversion H; subst. exact Hw.
   - inversion H; subst. exact Hw.
+  - inversion H; subst. exact Hw.
+  - inversion H; subst. exact Hw.
 Qed.
 
 Lemma history_sets_wf l : forall t, sets_wf (t_sets t) -> sets_wf (t_sets (run_history t l)).
